@@ -675,7 +675,10 @@ def sillexec(run, fx):
     POISON = 0x7E7E
     cases = 0
     try:
-        for counts in itertools.chain(itertools.product(range(0, 4), repeat=1), [(2, 1), (1, 3), (3, 0)]):
+        for counts in itertools.chain(itertools.product(range(0, 4), repeat=1), [(2, 1), (1, 3), (3, 0), (0, 2), (0, 0, 1), ('share', 1, 2), ('share', 2, 2), ('share', 3, 1)]):
+            share = bool(counts) and counts[0] == 'share'          # the languages' lists start at the same offset (one is a prefix of the other)
+            if share:
+                counts = counts[1:]
             nl = len(counts)
             cells = [0x7E] * (12 + 8 * nl + 8 * sum(counts) + 4)       # real bytes, big-endian; whatever the format does not define is 0x7E
 
@@ -686,18 +689,24 @@ def sillexec(run, fx):
             put(4, nl, 2)
             setoff = 12 + 8 * nl
             want = {}
+            base_off = setoff
             for i, ns in enumerate(counts):
                 lid = 0x6C610000 + i
                 put(12 + 8 * i, lid)
                 put(12 + 8 * i + 4, ns, 2)
-                put(12 + 8 * i + 6, setoff, 2)
+                put(12 + 8 * i + 6, base_off if share else setoff, 2)
                 want[lid] = []
                 for j in range(ns):
-                    put(setoff, 100 + 10 * i + j)          # feature id
-                    put(setoff + 4, 7 + j, 2)               # value
-                    want[lid].append((100 + 10 * i + j, 7 + j))
-                    setoff += 8
+                    fid = 100 + j if share else 100 + 10 * i + j
+                    o_ = base_off + 8 * j if share else setoff
+                    put(o_, fid)          # feature id
+                    put(o_ + 4, 7 + j, 2)               # value
+                    want[lid].append((fid, 7 + j))
+                    if not share:
+                        setoff += 8
                 want[lid].append((1, lid))
+            if share:
+                setoff = base_off + 8 * max(counts)
             total = setoff
             vec = O.Vec(cells[:total])
             fm = O.Rec({PFM + 'm_numFeats': 5, PFM + 'm_defaultFeatures': O.Rec({'#defaults': 1})})
@@ -719,7 +728,7 @@ def sillexec(run, fx):
             it = O.Interp(fx, natives=nat)
             it.MAX_STEPS = 20000
             cases += 1
-            desc = 'a Sill table with %d language(s) of %s setting(s)' % (nl, list(counts))
+            desc = 'a Sill table with %d language(s) of %s setting(s)%s' % (nl, list(counts), ', all lists starting at the same offset' if share else '')
             try:
                 r = it.call(fn, sm, [O.Rec({'#face': 1})])
             except O.Violation as v:
@@ -857,6 +866,8 @@ def run(run):
     perfeature(run, fx)
     from . import c01 as c01n_
     from .util import OnlyRules as _OnlyN
+    from . import c11 as c11n_
+    c11n_.derefadvance(run, fx, 'LABELENC')            # a label is transcoded by iterators that are dereferenced before they are advanced (shared with C11)
     c01n_.namebound(_OnlyN(run, ['VALIDATOR'], {'VALIDATOR': 'LABELENC'}), fx)        # a label is built from bytes of the name table only (shared with C01)
     from . import ordint as O_
     cf_ = fx.one('graphite2::SillMap::cloneFeatures')
